@@ -144,6 +144,21 @@ pub struct Bits {
     pub e: BitVec<u8, Msb0>,
 }
 
+/// generic over the bit store and the bit order
+#[derive(TypeInfo)]
+pub struct GBits<S: bitvec::store::BitStore, O: bitvec::order::BitOrder> {
+    pub bits: BitVec<S, O>,
+    pub n: u8,
+    pub more: Vec<BitVec<S, O>>,
+}
+
+#[derive(TypeInfo)]
+pub struct UsesGBits {
+    pub a: GBits<u8, Lsb0>,
+    pub b: GBits<u16, Msb0>,
+    pub c: Lsb0,
+}
+
 #[derive(TypeInfo)]
 pub struct G1<T> {
     pub a: T,
@@ -324,6 +339,8 @@ roots! {
     Compacts,
     CompactsE,
     Bits,
+    UsesGBits,
+    GBits<u32, Msb0>,
     UsesG,
     G1<u16>,
     G2<N, Vec<u8>>,
